@@ -92,6 +92,7 @@ def _selector_nodes(ev, par, regime):
 
 def r1_coef_identities(ctx):
     from .c01_coef import run_su_coef, REGIMES, RegimeRaises
+    from .c01_ev import Uninit
     fn = ctx.src.func(UTIL, "get_su_coef")
     sets, where = {}, {}
     sel_all = {}
@@ -100,10 +101,19 @@ def r1_coef_identities(ctx):
             tag = regime + ("/m=None" if m_none else "")
             try:
                 c, par, ev = run_su_coef(ctx, fn, regime, m_none)
+                un = [x for x in COEFS if isinstance(c[x], Uninit)]
+                if un:
+                    ctx.fail(f"{tag}: every returned coefficient is assigned for a mode of this regime", fn,
+                             f"{', '.join(un)}: created by np.empty and never stored into for the generic mode of this regime on any followed path "
+                             "(uninitialised memory is returned as an integration coefficient)", key=f"C01-R1|get_su_coef|{tag}|never assigned")
+                    continue
                 for x in COEFS:
                     need(c[x], f"{tag} coefficient {x}")
                     if _unmodelled(c[x]):
                         raise Unsupported(f"{tag} coefficient {x} is computed through {_unmodelled(c[x])}, which the evaluator does not model")
+                    if "idx(" in repr(c[x]):
+                        # for one generic mode every selection is resolved (the mode's own value, or nothing): a selection left standing was not lowered
+                        raise Unsupported(f"{tag} coefficient {x} contains a selection that was not resolved for the generic mode: {c[x]!r}"[:300])
             except RegimeRaises as e:
                 ctx.fail(f"{tag}: get_su_coef returns coefficients for a mode of this regime", e.node,
                          "the evaluation for the generic mode of this regime ends in a `raise` (the mode is selected by no regime mask, or by two)")
@@ -210,7 +220,7 @@ def r1b_regime_selectors(ctx):
     must not depend on the step (its accumulated error is |lambda| * t, independent of h).  Decided on values: get_su_coef is evaluated for the
     generic mode of every regime with b = 2 beta m, k = wo2 m; both operands of every mode-selecting comparison must be free of m."""
     from .c01_coef import run_su_coef, run_complex_coefs, REGIMES, mass_invariant, RegimeRaises
-    from .c01_ev import Sem01, unsym
+    from .c01_ev import Sem01, unsym, Uninit
     fn = ctx.src.func(UTIL, "get_su_coef")
     seen = {}      # id(node) -> [node, set of raw symbols the operands depend on]
     for regime in REGIMES:
@@ -275,7 +285,15 @@ def r1b_regime_selectors(ctx):
     def good(v):
         return v is not None and not is_unknown(v) and isinstance(v, F.Rat)
     for sfx, el, rbv in variants:
+        for nm in ("Fe", "Ae", "Be"):
+            for kind_, tab_ in (("an elastic", el), ("a near-zero", rbv)):
+                if isinstance(tab_.get(nm), Uninit):
+                    ctx.fail(f"_get_complex_su_coefs: the entry of {nm} for {kind_} eigenvalue is assigned before the array is published{sfx}", fn2,
+                             f"{nm} is created by np.empty and no store reaches the entry of {kind_} eigenvalue on any followed path: uninitialised memory is used as "
+                             "an integration coefficient", key=f"C01-R1b|_get_complex_su_coefs|{nm} never assigned|{kind_}")
         for nm in ("Ae", "Be"):
+            if isinstance(el.get(nm), Uninit) or isinstance(rbv.get(nm), Uninit):
+                continue          # reported above
             if not good(el.get(nm)) or not good(rbv.get(nm)):
                 ctx.error(f"_get_complex_su_coefs: {nm}{sfx}", fn2, {"elastic": repr(el.get(nm))[:200], "rigid": repr(rbv.get(nm))[:200]})
                 continue
@@ -840,9 +858,12 @@ def r7_subspace_typing(ctx):
             # what the method publishes: rb, el index the full set; _rb, _el index the non-rf set (the table the other rules rely on)
             for attr, dom in (("self.rb", "N"), ("self.el", "N"), ("self._rb", "K"), ("self._el", "K")):
                 t = T.attr_types.get(attr)
-                sp = t.dom if isinstance(t, I) else (t.s if isinstance(t, A) and t.kind == "mask" else None)      # an index vector, or a boolean mask over the set
+                sp = t.dom if isinstance(t, I) else None
                 label = f"_make_rb_el: `{attr}` holds positions relative to the {'full' if dom == 'N' else 'non-rf'} equation set"
-                if isinstance(t, IMix):
+                if isinstance(t, A) and not isinstance(t, AMix) and t.s is not None:
+                    # a mask / value array over a known set is not a vector of positions (its .size is the size of the set, which rbsize / elsize publish)
+                    ctx.fail(label, fn, f"{t!r}: an array with one entry per equation of {t.s}, not a vector of positions", key=f"C01-R7|_make_rb_el|{attr}|not positions")
+                elif isinstance(t, IMix):
                     ctx.fail(label, fn, f"{t!r}: on one of the paths through _make_rb_el the positions refer to another equation set", key=f"C01-R7|_make_rb_el|{attr}|mixed")
                 elif sp is None:
                     ctx.error(label + ": the published value was not typed", fn, repr(t))
@@ -897,6 +918,21 @@ def _hcheck(ctx, ok, label, where, detail=None):
         ctx.check(ok, label, where, detail)
 
 
+def _attr_after(ctx, S, rel, cls, name, **kw):
+    """value of `self.<name>` once the evaluated method (a constructor) has run: the attribute it stored, or - when the class computes the attribute on
+    demand in a `@property` - the value that property returns on the object as the method left it"""
+    from .c01_ev import Sem01
+    v = S.env(f"self.{name}")
+    if v is not None:
+        return v
+    prop = ctx.src.mod(rel).funcs.get(f"{cls}.{name}")
+    if prop is None or not any((dotted(d_) or "") in ("property", "functools.cached_property", "cached_property") for d_ in prop.decorator_list):
+        return None
+    env = {k_: v_ for k_, v_ in S.ev.env.items() if k_.startswith("self.")}
+    S2 = Sem01(ctx, prop, env=env, inline=S.ev.inl, truth=S.ev.truth, cmp=S.ev.cmp_hook, nonnull=S.ev.nonnull, consts=S.ev.module_consts)
+    return S2.ret()
+
+
 def r8_solveexp1(ctx):
     """First-order exact solver y' = A y + f: the constructor takes E, P, Q from expmint.getEPQ(A, h, order) and tsolve advances
     y_j = E y_{j-1} + P f_{j-1} + Q f_j (order 1) / E y_{j-1} + P f_{j-1} (order 0) from y_0 = d0 (0 when not given), returning v = f + A y.
@@ -921,9 +957,10 @@ def r8_solveexp1(ctx):
             return (F.sym("E"), F.sym("P"), F.sym("Q"))
         return NotImplemented
     S0 = Sem01(ctx, init, call=call0, truth={"h": True}, env={"A": F.sym("A"), "h": F.sym("h"), "order": F.sym("order")}, inline=inl)
-    ok = all(S0.same(S0.env(f"self.{x}"), F.sym(x)) for x in ("E", "P", "Q", "A", "h", "order"))
-    _chk(ctx, ok, "SolveExp1.__init__: E, P, Q, A, h, order are stored under their own names", init, None if ok else {x: repr(S0.env(f"self.{x}")) for x in "EPQA"},
-         vals=tuple(S0.env(f"self.{x}") for x in ("E", "P", "Q", "A", "h", "order")))
+    got8 = {x: _attr_after(ctx, S0, SE1, "SolveExp1", x) for x in ("E", "P", "Q", "A", "h", "order")}
+    ok = all(S0.same(got8[x], F.sym(x)) for x in got8)
+    _chk(ctx, ok, "SolveExp1.__init__: E, P, Q, A, h, order are stored under their own names", init, None if ok else {x: repr(got8[x]) for x in "EPQA"},
+         vals=tuple(got8[x] if got8[x] is not None else Unknown_(f"self.{x} is not set") for x in got8))
     NT = 4
     f = tuple(F.sym(f"f{k}") for k in range(NT))
     E_, P_, Q_, A_ = F.sym("E"), F.sym("P"), F.sym("Q"), F.sym("A")
@@ -1063,11 +1100,11 @@ def r9_solveexp2(ctx):
     want = {"E_vv": ("v", "v"), "E_vd": ("v", "d"), "E_dv": ("d", "v"), "E_dd": ("d", "d")}
     half = {"v": S0.ev._index_value(ast.parse("x[:ksize]", mode="eval").body.slice), "d": S0.ev._index_value(ast.parse("x[ksize:]", mode="eval").body.slice)}
     for nm, (r, c) in want.items():
-        got = S0.env(f"self.{nm}")
+        got = _attr_after(ctx, S0, SE2, "SolveExp2", nm)
         label = (f"SolveExp2.__init__: {nm} is the block of E that maps the {('velocity' if c == 'v' else 'displacement')} half of the state to the "
                  f"{('velocity' if r == 'v' else 'displacement')} half (state layout [v; d]: rows/columns :ksize are velocities)")
         if got is None or is_unknown(got) or isinstance(got, tuple) or not isinstance(got, F.Rat):
-            ctx.check(False, label, init, repr(got))
+            ctx.error(label + ": the attribute was not found / not lowered", init, repr(got))          # unknown, not wrong
             continue
         # decided on the selection itself: one subscript or several, slices / ranges, `ksize:` or `ksize:2*ksize`
         base, rs, cs = _block2(got)
@@ -1095,8 +1132,9 @@ def r9_solveexp2(ctx):
             ctx.check(False, label, init, repr(got))
         else:
             ctx.error(label + ": the selection was not recognised as a block of E", init, repr(got)[:300])
-    ok = S0.same(S0.env("self.P"), F.sym("P")) and S0.same(S0.env("self.Q"), F.sym("Q"))
-    _chk(ctx, ok, "SolveExp2.__init__: P and Q are stored under their own names", init, vals=(S0.env("self.P"), S0.env("self.Q")))
+    gotPQ = tuple(_attr_after(ctx, S0, SE2, "SolveExp2", x) for x in "PQ")
+    ok = S0.same(gotPQ[0], F.sym("P")) and S0.same(gotPQ[1], F.sym("Q"))
+    _chk(ctx, ok, "SolveExp2.__init__: P and Q are stored under their own names", init, vals=tuple(x if x is not None else Unknown_("not set") for x in gotPQ))
     # a system without dynamic equations (every mode statically solved: ksize = 0) has no state matrix: the exponential must not be requested
     asked = []
 
@@ -1112,6 +1150,12 @@ def r9_solveexp2(ctx):
         return None if r is None else (not r)
     Sem01(ctx, init, call=call1, truth={"h": True, "ksize": False}, cmp=nosize, inline=inl0, env={"h": F.sym("h"), "order": F.sym("order"), "self.ksize": F.sym("ksize")})
     ctx.check(not asked, "SolveExp2.__init__: with no dynamic equations (ksize = 0) neither the state matrix nor its exponential is built", asked[0] if asked else init)
+    # ... and the smallest system that has one (ksize = 1) gets both: the size test is decided on the number itself
+    del asked[:]
+    Sem01(ctx, init, call=call1, truth={"h": True}, inline=inl0, env={"h": F.sym("h"), "order": F.sym("order"), "self.ksize": F.const(1)})
+    names = {(dotted(n_.func) or "").split(".")[-1] for n_ in asked}
+    ctx.check({"getEPQ", "_build_A"} <= names, "SolveExp2.__init__: a system with a single dynamic equation (ksize = 1) gets its state matrix and exponential", init,
+              None if {"getEPQ", "_build_A"} <= names else f"requested: {sorted(names)} - the guard on the number of dynamic equations excludes ksize = 1")
     # ---- tsolve on a generic history
     NT = 4
     f = tuple(F.sym(f"f{k}") for k in range(NT))
@@ -1297,7 +1341,7 @@ RULES = [
     ("C01-R6", r6_equilibrium_acceleration, 11),
     ("C01-R7", r7_subspace_typing, 12),
     ("C01-R8", r8_solveexp1, 14),
-    ("C01-R9", r9_solveexp2, 19),
+    ("C01-R9", r9_solveexp2, 20),
     ("C01-R10", r10_real_unc_batch, 4),
     ("C01-R11", r11_complex_unc_batch, 24),
 ]
